@@ -6,6 +6,8 @@ s = importlib.util.spec_from_file_location('properties', os.path.join(V, 'spec',
 m = importlib.util.module_from_spec(s); s.loader.exec_module(m)
 na = json.load(open(os.path.join(V, 'spec', 'not_applicable.json')))
 checks = []
+import re
+m.PROPS = {k: v for k, v in m.PROPS.items() if re.match(r'^C\d\d$', k)}
 for pid in sorted(m.PROPS):
     c = m.PROPS[pid]
     checks.append(dict(
